@@ -15,7 +15,7 @@ PROPERTY = "C04"
 ENGINE = "rsim+corruption"
 LEVEL = "fault_enumeration"
 PIN_FIRST = True  # a violation is one damaged image: pin it instead of re-enumerating while shrinking
-RULE = ("case = seeded small pristine archive A (4 of 5 py7zr-written, 1 of 5 written by the reference writer with per-file CRCs in a C06 layout: every codec family, with/without AES, raw/encoded/encrypted header, 1..4 folders, "
+RULE = ("case = seeded small pristine archive A (4 of 5 py7zr-written, 1 of 5 written by the reference writer with per-file or per-folder CRCs in a C06 layout: every codec family, with/without AES, raw/encoded/encrypted header, 1..4 folders, "
         "150..2500 bytes) with its exact member map; faults at rest: EVERY single-bit flip at every bit position and EVERY truncation length "
         "(exhaustive per archive), plus seeded byte overwrites, bursts <= 32 bits, insert/delete of 1..8 bytes, extension by garbage and block swaps "
         "inside the packed area. Each damaged image D is driven through open+getnames+extractall(factory), open+testzip and open+test (step-budgeted): "
@@ -42,14 +42,14 @@ def gen_case(rng: Rng, i: int, tier: str):
             c = c06.gen_case(rng.sub("ref%d" % attempt), 10 ** 6, tier)
             if "fixture" in c or not c["members"]:
                 continue
-            c["layout"]["crc"] = "substream"
+            c["layout"]["crc"] = "folder" if i % 10 == 9 else "substream"  # per-member CRCs, or only one per folder
             c["layout"]["header_crc"] = True
             for m in c["members"]:
                 if m.get("content") and m["content"].get("len", 0) > 150:
                     m["content"]["len"] = 150
             if any(m["kind"] == "symlink" for m in c["members"]):
                 continue
-            return {"ref": {"members": c["members"], "layout": c["layout"]}, "open": r.pick(["stream", "path"]), "rng": r.randrange(1 << 30), "sampled": 400 if tier == "quick" else 3000}
+            return {"ref": {"members": c["members"], "layout": c["layout"]}, "open": r.pick(["stream", "path", "anon"]), "rng": r.randrange(1 << 30), "sampled": 400 if tier == "quick" else 3000}
     fams = gen.COMPRESSORS
     arc = rsess.gen_archive(rng.sub("arc"), tier, maxlen=120, want_dirs=False if r.chance(0.6) else True)
     # stratify the first session's chain over the compressor families and header modes
@@ -73,7 +73,7 @@ def gen_case(rng: Rng, i: int, tier: str):
             for op in s["ops"]:
                 if op["op"] == "writeall":
                     op["tree"] = op["tree"][:3]
-    return {"archive": arc, "open": r.pick(["stream", "path"]), "rng": r.randrange(1 << 30), "sampled": 400 if tier == "quick" else 3000}
+    return {"archive": arc, "open": r.pick(["stream", "path", "anon"]), "rng": r.randrange(1 << 30), "sampled": 400 if tier == "quick" else 3000}
 
 
 def faults_for(img: bytes, rng: Rng, nsampled, packed_span):
@@ -154,7 +154,7 @@ def _open(py7zr, img, kind, password):
     seams = Seams(fs=fs, inline_threads=True)
     seams.__enter__()
     try:
-        target = rsess.READ_PATH if kind == "path" else SimRaw(fs.get(rsess.READ_PATH), readable=True)
+        target = rsess.READ_PATH if kind == "path" else SimRaw(fs.get(rsess.READ_PATH), readable=True, anonymous=kind == "anon")
         z = py7zr.SevenZipFile(target, "r", password=password)
     except BaseException:
         seams.__exit__(None, None, None)
